@@ -28,6 +28,7 @@ variable {V I : Type}
 structure Hier where
   mro : Nat → List Nat       -- class ↦ its MRO (itself first)
   own : Nat → List Nat       -- class ↦ the one-time names in its own class dictionary
+  visited : Nat → Bool := fun _ => true   -- the classes a FILTERED walk of the MRO looks at (`NameSource.walkFiltered` only)
 
 /-- what `reset` must delete for an object of class `c`: the names of `c` and of all its ancestors -/
 def Hier.allNames (h : Hier) (c : Nat) : List Nat := (h.mro c).flatMap h.own
@@ -43,6 +44,7 @@ def lookupInherited (h : Hier) (t : Tables) (c : Nat) : Option (List Nat) := (h.
 def namesFor (src : NameSource) (h : Hier) (t : Tables) (c : Nat) : List Nat × Tables :=
   match src with
   | .walkPerCall => (h.allNames c, t)
+  | .walkFiltered => (((h.mro c).filter h.visited).flatMap h.own, t)
   | .ownTable =>
     match t c with
     | some ns => (ns, t)
